@@ -55,7 +55,7 @@ func init() {
 		Assumptions: []string{"a reader/writer wrapper at the io boundary is the observation point; the count of bytes it delivered/accepted is ground truth",
 			"for declared body sizes above 2^31 only 'no success, normal return, n = bytes consumed' is asserted, not which error",
 			"cause = errors.Cause chain or errors.Is"},
-		Flavours: releaseThenGo126,
+		Flavours: releaseAnd386,
 		Required: []string{"cut/k=0", "cut/in-header", "cut/k=32", "cut/in-body", "readerr/alone", "readerr/with-data", "writefault/in-header", "writefault/at-32", "writefault/in-body",
 			"writefault/eager", "writefault/transient", "writefault/error-with-complete-count-then-accepting", "writefault/error-on-the-write-that-completes-the-frame", "writefault/body>32KiB", "cut/big-frame>1MiB", "cut/std-reader", "corrupt/hsize!=32", "corrupt/bsize>=2^63", "corrupt/bsize-huge", "corrupt/bsize-beyond-stream", "corrupt/complete-frame-ok", "random/short", "random/bitflip"},
 		Families: func(c *mon.Config) []mon.Family {
